@@ -68,6 +68,23 @@ fn pointer_family() -> GenParams {
     }
 }
 
+pub fn withdraw_family() -> GenParams {
+    GenParams {
+        family: "withdraw",
+        txs: (4, 10),
+        n_eoa: 12,
+        n_con: 1,
+        mix: Mix { slots: 12, ..Mix::default() },
+        kind_w: [16, 0, 0, 0],
+        hot_sender_pct: 0,
+        withdraw_contract: true,
+        low_gas_pct: 0,
+        zero_tip_pct: 0,
+        basefees: &[7],
+        ..GenParams::default()
+    }
+}
+
 pub fn reborn_family() -> GenParams {
     GenParams {
         family: "reborn",
@@ -105,6 +122,7 @@ pub fn c02() -> SchedCampaign {
         families: vec![
             Family { weight: 6, params: conflict_family("hot-slots") },
             Family { weight: 6, params: pointer_family() },
+            Family { weight: 3, params: withdraw_family() },
             Family {
                 weight: 3,
                 params: GenParams {
@@ -339,6 +357,7 @@ fn dep_heavy() -> SchedCampaign {
     SchedCampaign {
         prop: "C16",
         families: vec![
+            Family { weight: 4, params: withdraw_family() },
             Family {
                 weight: 5,
                 params: GenParams {
